@@ -253,9 +253,11 @@ def loop_case(start_off, horizon, oneshots, crons, failing_source, failing_send,
         async def startup(self): await self.inner.startup()
         async def get_schedules(self):
             if self.cache is None: self.cache = await self.inner.get_schedules()
-            return list(self.cache)
+            return self.cache if stable_ids == 'live' else list(self.cache)          # 'live': the source hands out ITS list (as a simple in-memory source does) and edits it in place
         def post_send(self, task):
-            if task.time is not None: self.cache = [x for x in self.cache if x is not task and x.schedule_id != task.schedule_id]
+            if task.time is not None:
+                if stable_ids == 'live': self.cache[:] = [x for x in self.cache if x is not task and x.schedule_id != task.schedule_id]
+                else: self.cache = [x for x in self.cache if x is not task and x.schedule_id != task.schedule_id]
     class AsyncStable(Stable):          # the same with an `async def post_send` (allowed by ScheduleSource): on_ready must await it
         async def post_send(self, task): Stable.post_send(self, task)
     sources = [Slow(b) if slow_listing else ((AsyncStable if stable_ids == 'async' else Stable)(LabelScheduleSource(b)) if stable_ids else LabelScheduleSource(b))] + ([Bad()] if failing_source else [])
@@ -312,7 +314,9 @@ def loop_case(start_off, horizon, oneshots, crons, failing_source, failing_send,
         want = [mi for mi in range(first, last + 1) if pycron.is_now(c, BASE + _dt.timedelta(minutes=mi))]
         if host_offset_h and mins != want: pr.append(f"C13: cron schedule {c!r} sent by the scheduler loop in minutes {mins} of {BASE.isoformat()} on a host with UTC offset {host_offset_h:+}h, expected {want} (UTC is the reference when no offset is given)")
         if failing_send and i == 0 and want: want = want[1:] if mins and mins[0] != want[0] else want
-        if mins != want and not slow_listing: pr.append(f"C15: cron schedule {c!r} sent in minutes {mins}, expected {want}")
+        if mins != want and not slow_listing:
+            pr.append(f"C15: cron schedule {c!r} sent in minutes {mins[:8]}{'...' if len(mins) > 8 else ''}, expected {want[:8]}{'...' if len(want) > 8 else ''}")
+            if not failing_send and not failing_source: pr.append(f"C13: in a loop without any failure the cron schedule {c!r} was considered due in minutes {mins[:8]}{'...' if len(mins) > 8 else ''} of {BASE.isoformat()}; its expression matches in minutes {want[:8]}{'...' if len(want) > 8 else ''}")
     return pr
 
 def run(sc):
@@ -361,6 +365,12 @@ def run(sc):
         for start_off in (0.4, 59.7):          # a send that fails once must not affect later occurrences, also for sources that list the same schedule ids at every poll
             pr = loop_case(start_off, 330.0, [90.0], ['* * * * *', '*/2 * * * *'], False, True, stable_ids=True); n += 1
             if pr: fails.append({'key': f"loop/start+{start_off}/stable-ids/failing-send", 'failed_clauses': pr})
+        # a long life: 25 hours with a stable-id source - an expression that matches once a day (and one that matches once an hour) fires again on day 2
+        pr = loop_case(0.4, 25 * 3600.0 + 330.0, [], ['5 12 * * *', '0 * * * *'], False, False, stable_ids=True); n += 1
+        if pr: fails.append({'key': "loop/25-hours/stable-ids", 'failed_clauses': pr[:6]})
+        # a big source that hands out its live list: 1 due one-shot followed by 299 every-minute schedules
+        pr = loop_case(0.4, 150.0, [0.2], ['* * * * *'] * 299, False, False, stable_ids='live'); n += 1
+        if pr: fails.append({'key': "loop/300-schedules/live-list", 'failed_clauses': pr[:6]})
     return {'reproduced': bool(fails), 'runs': n, 'n_failures': len(fails), 'failures': fails[:400]}
 
 if __name__ == '__main__':
